@@ -300,10 +300,11 @@ def implement_func(func_type, func_str, input_units=None, output_unit=None):
             )
 
         first_input_units = _get_first_input_units(args, kwargs)
-        if _is_quantity(kwargs.get("initial")) and output_unit in ("sum", "match_input"):
+        if kwargs.get("initial") is not None and output_unit in ("sum", "match_input"):
             # The start value of a reduction is a quantity of the same kind as the
             # elements: express it in their units (and refuse incompatible ones).
-            kwargs["initial"] = kwargs["initial"].to(first_input_units)
+            # A bare number is a dimensionless quantity, like everywhere else.
+            kwargs["initial"] = convert_arg(kwargs["initial"], first_input_units)
         if input_units == "all_consistent":
             # Match all input args/kwargs to same units
             stripped_args, stripped_kwargs = convert_to_consistent_units(
